@@ -29,7 +29,7 @@ CONSTANTS MaxSess,    \* ids the server may mint in one history
           T,          \* idle timeout in ticks; 0 = SessionTimeout unset
           Stateless,  \* StreamableHTTPOptions.Stateless
           MaxSlots,   \* slow POSTs in progress at the same time
-          MaxParked   \* requests parked on a closing session (pending DELETEs, hung calls)
+          MaxParked   \* requests parked on one closing session (pending DELETEs, hung calls)
 
 Users   == {"none", "A", "B"}
 Ids     == 1..MaxSess
@@ -41,17 +41,17 @@ Bodies  == {"init", "badinit", "call", "slow"}
 VARIABLES tab,     \* [Ids -> session record]
           nmint,   \* ids minted so far
           slot,    \* [Slots -> slow POST in progress]
-          parked,  \* Seq of requests waiting for a closing session to die
           tiewin,  \* time was advanced exactly to a deadline without letting the timer run first
           res,     \* completions produced by the last step (output)
           ranNow,  \* tool handlers started by the last step (output)
           bad      \* ghost: a timeout closed a session under a POST admitted strictly before the deadline
-vars == <<tab, nmint, slot, parked, tiewin, res, ranNow, bad>>
+vars == <<tab, nmint, slot, tiewin, res, ranNow, bad>>
 
+\* pdel / phung: DELETEs and tool calls waiting for this (closing) session to die
 FreeSess == [st |-> "free", owner |-> "none", refs |-> 0, tmr |-> "nil", rem |-> 0, cb |-> FALSE,
-             run |-> 0, srv |-> FALSE]
+             run |-> 0, pdel |-> 0, phung |-> 0]
 DeadSess(o) == [FreeSess EXCEPT !.st = "dead", !.owner = o]
-FreeSlot == [id |-> 0, hung |-> FALSE, tie |-> FALSE, user |-> "none"]
+FreeSlot == [id |-> 0, hung |-> FALSE, tie |-> FALSE]
 
 Due(i) == tab[i].tmr = "armed" /\ tab[i].rem = 0
 Unsettled == \E i \in Ids : Due(i) \/ tab[i].cb
@@ -87,23 +87,20 @@ Touch(s) == EndPOST(StartPOST(s))
 SmallestFree == CHOOSE p \in Slots : slot[p].id = 0 /\ \A q \in Slots : q < p => slot[q].id # 0
 HasFreeSlot == \E p \in Slots : slot[p].id = 0
 
-\* onClose: everything that was waiting for session i completes
-ParkedOf(i) == SelectSeq(parked, LAMBDA r : r.tgt = i)
-ParkedCmp(r) == Cmp(r.m, r.body, r.tgt, r.user, r.cls, IF r.m = "DELETE" THEN 204 ELSE 200, 0, FALSE, FALSE)
-RECURSIVE HungCmps(_, _)
-HungCmps(i, p) == IF p > MaxSlots THEN <<>>
-                  ELSE (IF slot[p].id = i /\ slot[p].hung
-                        THEN <<Cmp("POST", "slow", i, slot[p].user, "live", 200, 0, FALSE, FALSE)>>
-                        ELSE <<>>) \o HungCmps(i, p + 1)
-DieCmps(i) == [j \in DOMAIN ParkedOf(i) |-> ParkedCmp(ParkedOf(i)[j])] \o HungCmps(i, 1)
+\* onClose: everything that was waiting for session i completes (the user of a request that
+\* completes late is not tracked: "")
+DieCmps(i) ==
+  [j \in 1..tab[i].pdel |-> Cmp("DELETE", "", i, "", "live", 204, 0, FALSE, FALSE)]
+  \o [j \in 1..tab[i].phung |-> Cmp("POST", "call", i, "", "live", 200, 0, FALSE, FALSE)]
+  \o [j \in 1..Cardinality({p \in Slots : slot[p].id = i /\ slot[p].hung}) |->
+         Cmp("POST", "slow", i, "", "live", 200, 0, FALSE, FALSE)]
 Die(i, first) ==
   /\ tab' = [tab EXCEPT ![i] = DeadSess(tab[i].owner)]
-  /\ parked' = SelectSeq(parked, LAMBDA r : r.tgt # i)
   /\ slot' = [p \in Slots |-> IF slot[p].id = i THEN FreeSlot ELSE slot[p]]
   /\ res' = first \o DieCmps(i)
 
 Init == /\ tab = [i \in Ids |-> FreeSess] /\ nmint = 0 /\ slot = [p \in Slots |-> FreeSlot]
-        /\ parked = <<>> /\ tiewin = FALSE /\ res = <<>> /\ ranNow = 0 /\ bad = FALSE
+        /\ tiewin = FALSE /\ res = <<>> /\ ranNow = 0 /\ bad = FALSE
 
 Step == HarnessOK /\ tiewin' = FALSE /\ UNCHANGED bad
 
@@ -122,38 +119,37 @@ PostCreate(body, user) ==   \* no Mcp-Session-Id: a session is created whatever 
           ELSE \* the id is sent, initialize fails, the deferred cleanup closes the session
                /\ tab' = [tab EXCEPT ![nmint + 1] = DeadSess(user)]
                /\ res' = <<Cmp("POST", "badinit", NoId, user, "none", 200, nmint + 1, TRUE, FALSE)>>
-       /\ ranNow' = 0 /\ UNCHANGED <<slot, parked>>
+       /\ ranNow' = 0 /\ UNCHANGED slot
   ELSE \* a session is created, the call is refused (not initialized), the session is closed; no id is sent
        /\ res' = <<Cmp("POST", body, NoId, user, "none", 200, 0, FALSE, FALSE)>>
-       /\ ranNow' = 0 /\ UNCHANGED <<tab, nmint, slot, parked>>
+       /\ ranNow' = 0 /\ UNCHANGED <<tab, nmint, slot>>
 
 PostReject(body, tgt, user) ==
   /\ LookupStatus(tgt, user) # 0
   /\ res' = <<Cmp("POST", body, tgt, user, Class(tgt, user), LookupStatus(tgt, user), 0, FALSE, FALSE)>>
-  /\ ranNow' = 0 /\ UNCHANGED <<tab, nmint, slot, parked>>
+  /\ ranNow' = 0 /\ UNCHANGED <<tab, nmint, slot>>
 
 PostFast(body, i, user) ==   \* answered within the step: tool call, or a repeated initialize (JSON-RPC error)
   /\ body # "slow" /\ LookupStatus(i, user) = 0 /\ tab[i].st = "live"
   /\ tab' = [tab EXCEPT ![i] = Touch(tab[i])]
   /\ res' = <<Cmp("POST", body, i, user, "live", 200, IF body = "call" THEN 0 ELSE i, FALSE, body = "call")>>
   /\ ranNow' = IF body = "call" THEN 1 ELSE 0
-  /\ UNCHANGED <<nmint, slot, parked>>
+  /\ UNCHANGED <<nmint, slot>>
 
 PostSlow(i, user) ==   \* admitted; stays in progress until EndPost
   /\ LookupStatus(i, user) = 0 /\ tab[i].st = "live" /\ HasFreeSlot
   /\ tab' = [tab EXCEPT ![i] = [StartPOST(tab[i]) EXCEPT !.run = tab[i].run + 1]]
-  /\ slot' = [slot EXCEPT ![SmallestFree] = [id |-> i, hung |-> FALSE, tie |-> (tab[i].cb \/ Due(i)), user |-> user]]
-  /\ res' = <<>> /\ ranNow' = 1 /\ UNCHANGED <<nmint, parked>>
+  /\ slot' = [slot EXCEPT ![SmallestFree] = [id |-> i, hung |-> FALSE, tie |-> (tab[i].cb \/ Due(i))]]
+  /\ res' = <<>> /\ ranNow' = 1 /\ UNCHANGED nmint
 
 PostPark(body, i, user) ==   \* the session is being closed: the call is never dispatched and ends when the session does
   /\ body \in {"call", "slow"} /\ LookupStatus(i, user) = 0 /\ tab[i].st = "closing"
-  /\ tab' = [tab EXCEPT ![i] = StartPOST(tab[i])]
   /\ IF body = "slow"
      THEN /\ HasFreeSlot
-          /\ slot' = [slot EXCEPT ![SmallestFree] = [id |-> i, hung |-> TRUE, tie |-> FALSE, user |-> user]]
-          /\ UNCHANGED parked
-     ELSE /\ Len(parked) < MaxParked
-          /\ parked' = Append(parked, [m |-> "POST", body |-> "call", tgt |-> i, user |-> user, cls |-> "live"])
+          /\ slot' = [slot EXCEPT ![SmallestFree] = [id |-> i, hung |-> TRUE, tie |-> FALSE]]
+          /\ tab' = [tab EXCEPT ![i] = StartPOST(tab[i])]
+     ELSE /\ tab[i].pdel + tab[i].phung < MaxParked
+          /\ tab' = [tab EXCEPT ![i] = [StartPOST(tab[i]) EXCEPT !.phung = tab[i].phung + 1]]
           /\ UNCHANGED slot
   /\ res' = <<>> /\ ranNow' = 0 /\ UNCHANGED nmint
 
@@ -161,11 +157,11 @@ StatelessPost(body, tgt, user) ==   \* ephemeral session per request; the id hea
   /\ body \in {"init", "call", "slow"}
   /\ IF body = "slow"
      THEN /\ HasFreeSlot
-          /\ slot' = [slot EXCEPT ![SmallestFree] = [id |-> Unknown, hung |-> FALSE, tie |-> FALSE, user |-> user]]
+          /\ slot' = [slot EXCEPT ![SmallestFree] = [id |-> Unknown, hung |-> FALSE, tie |-> FALSE]]
           /\ res' = <<>> /\ ranNow' = 1
      ELSE /\ res' = <<Cmp("POST", body, tgt, user, Class(tgt, user), 200, 0, FALSE, body = "call")>>
           /\ ranNow' = (IF body = "call" THEN 1 ELSE 0) /\ UNCHANGED slot
-  /\ UNCHANGED <<tab, nmint, parked>>
+  /\ UNCHANGED <<tab, nmint>>
 
 Post(body, tgt, user) ==
   /\ Step
@@ -185,7 +181,7 @@ Get(tgt, user) ==
                   IF Stateless THEN 405 ELSE IF tgt = NoId THEN 400
                   ELSE IF LookupStatus(tgt, user) # 0 THEN LookupStatus(tgt, user) ELSE 200,
                   0, FALSE, FALSE)>>
-  /\ ranNow' = 0 /\ UNCHANGED <<tab, nmint, slot, parked>>
+  /\ ranNow' = 0 /\ UNCHANGED <<tab, nmint, slot>>
 
 Delete(tgt, user) ==
   /\ Step /\ ranNow' = 0 /\ UNCHANGED nmint
@@ -193,22 +189,21 @@ Delete(tgt, user) ==
      THEN /\ res' = <<Cmp("DELETE", "", tgt, user, Class(tgt, user),
                           IF Stateless THEN 405 ELSE IF tgt = NoId THEN 400 ELSE LookupStatus(tgt, user),
                           0, FALSE, FALSE)>>
-          /\ UNCHANGED <<tab, slot, parked>>
+          /\ UNCHANGED <<tab, slot>>
      ELSE IF tab[tgt].run = 0
      THEN Die(tgt, <<Cmp("DELETE", "", tgt, user, "live", 204, 0, FALSE, FALSE)>>)
      ELSE \* session.Close() waits for the running tool: the DELETE is answered when the session dies
-          /\ Len(parked) < MaxParked
-          /\ parked' = Append(parked, [m |-> "DELETE", body |-> "", tgt |-> tgt, user |-> user, cls |-> "live"])
-          /\ tab' = [tab EXCEPT ![tgt].st = "closing"]
+          /\ tab[tgt].pdel + tab[tgt].phung < MaxParked
+          /\ tab' = [tab EXCEPT ![tgt].st = "closing", ![tgt].pdel = @ + 1]
           /\ res' = <<>> /\ UNCHANGED slot
 
 \* ServerSession.Close() called by the server's own code
 Close(i) ==
-  /\ Step /\ ~Stateless /\ i \in Minted /\ tab[i].st = "live" /\ ~tab[i].srv
+  /\ Step /\ ~Stateless /\ i \in Minted /\ tab[i].st = "live"
   /\ ranNow' = 0 /\ UNCHANGED nmint
   /\ IF tab[i].run = 0 THEN Die(i, <<>>)
-     ELSE /\ tab' = [tab EXCEPT ![i].st = "closing", ![i].srv = TRUE]
-          /\ res' = <<>> /\ UNCHANGED <<slot, parked>>
+     ELSE /\ tab' = [tab EXCEPT ![i].st = "closing"]
+          /\ res' = <<>> /\ UNCHANGED slot
 
 \* the gated tool of slot p returns: its POST is answered and ends
 EndPost(p) ==
@@ -216,15 +211,15 @@ EndPost(p) ==
   /\ ranNow' = 0 /\ UNCHANGED nmint
   /\ LET i == slot[p].id IN
      IF Stateless
-     THEN /\ res' = <<Cmp("POST", "slow", NoId, slot[p].user, "none", 200, 0, FALSE, TRUE)>>
-          /\ slot' = [slot EXCEPT ![p] = FreeSlot] /\ UNCHANGED <<tab, parked>>
+     THEN /\ res' = <<Cmp("POST", "slow", NoId, "", "none", 200, 0, FALSE, TRUE)>>
+          /\ slot' = [slot EXCEPT ![p] = FreeSlot] /\ UNCHANGED tab
      ELSE LET s1 == EndPOST([tab[i] EXCEPT !.run = tab[i].run - 1])
-              c  == Cmp("POST", "slow", i, slot[p].user, "live", 200, 0, FALSE, TRUE) IN
+              c  == Cmp("POST", "slow", i, "", "live", 200, 0, FALSE, TRUE) IN
           IF s1.st = "closing" /\ s1.run = 0
           THEN Die(i, <<c>>)
           ELSE /\ tab' = [tab EXCEPT ![i] = s1]
                /\ slot' = [slot EXCEPT ![p] = FreeSlot]
-               /\ res' = <<c>> /\ UNCHANGED parked
+               /\ res' = <<c>>
 
 -----------------------------------------------------------------------------
 \* time
@@ -238,7 +233,7 @@ Advance(dt) ==
   /\ tab' = [i \in Ids |-> IF tab[i].tmr # "armed" THEN tab[i]
                            ELSE IF tab[i].rem <= dt THEN TimeoutClose(tab[i])
                            ELSE [tab[i] EXCEPT !.rem = @ - dt]]
-  /\ res' = <<>> /\ ranNow' = 0 /\ UNCHANGED <<nmint, slot, parked>>
+  /\ res' = <<>> /\ ranNow' = 0 /\ UNCHANGED <<nmint, slot>>
 
 \* the clock advances exactly to a deadline and the next request is issued at that very instant,
 \* racing the timer (TimerFire, TimeoutCallback below)
@@ -249,13 +244,13 @@ AdvanceTie(dt) ==
                            ELSE IF tab[i].rem < dt THEN TimeoutClose(tab[i])
                            ELSE [tab[i] EXCEPT !.rem = @ - dt]]
   /\ tiewin' = TRUE
-  /\ res' = <<>> /\ ranNow' = 0 /\ UNCHANGED <<nmint, slot, parked, bad>>
+  /\ res' = <<>> /\ ranNow' = 0 /\ UNCHANGED <<nmint, slot, bad>>
 
 \* the runtime fires the timer: the callback goroutine exists but has not run; Stop() now reports false
 TimerFire(i) ==
   /\ Due(i)
   /\ tab' = [tab EXCEPT ![i].tmr = "off", ![i].cb = TRUE]
-  /\ UNCHANGED <<nmint, slot, parked, tiewin, res, ranNow, bad>>
+  /\ UNCHANGED <<nmint, slot, tiewin, res, ranNow, bad>>
 
 \* the callback runs: sessInfo.session.Close()
 TimeoutCallback(i) ==
@@ -265,7 +260,7 @@ TimeoutCallback(i) ==
                                 THEN (IF tab[i].run = 0 THEN DeadSess(tab[i].owner)
                                       ELSE [tab[i] EXCEPT !.st = "closing", !.cb = FALSE])
                                 ELSE [tab[i] EXCEPT !.cb = FALSE]]
-  /\ UNCHANGED <<nmint, slot, parked, tiewin, res, ranNow>>
+  /\ UNCHANGED <<nmint, slot, tiewin, res, ranNow>>
 
 -----------------------------------------------------------------------------
 Targets == {NoId, Unknown} \cup Ids
@@ -317,11 +312,16 @@ StatelessNoIds == Stateless => /\ nmint = 0
                                /\ \A c \in Range(res) : c.sid = 0 /\ (c.m \in {"GET", "DELETE"} => c.status = 405)
                                                         /\ (c.m = "POST" => c.status = 200)
 
+\* the clauses that speak about responses, as a step property: it is evaluated on every transition,
+\* also when a VIEW hides the output variables
+ResProps == MintOnlyOnCreate /\ DeadStaysDead /\ UserBound /\ StatelessNoIds
+ResAlways == [][ResProps']_vars
+
 ClosedAndForgotten ==
   \A i \in Ids : tab[i].st = "dead" =>
      /\ i \notin Sessions /\ tab[i].tmr = "nil" /\ tab[i].refs = 0 /\ tab[i].run = 0
+     /\ tab[i].pdel = 0 /\ tab[i].phung = 0
      /\ \A p \in Slots : slot[p].id # i
-     /\ \A r \in Range(parked) : r.tgt # i
 
 \* the idle timer is armed only while no POST is in progress; refs counts the POSTs in progress
 TimerDiscipline ==
@@ -329,8 +329,7 @@ TimerDiscipline ==
      /\ tab[i].refs >= 0 /\ tab[i].run >= 0
      /\ tab[i].tmr = "armed" => tab[i].refs = 0 /\ tab[i].run = 0 /\ tab[i].st = "live"
      /\ (tab[i].st \in {"live", "closing"} /\ T > 0) =>
-           tab[i].refs = Cardinality({p \in Slots : slot[p].id = i})
-                         + Len(SelectSeq(parked, LAMBDA r : r.tgt = i /\ r.m = "POST"))
+           tab[i].refs = Cardinality({p \in Slots : slot[p].id = i}) + tab[i].phung
      /\ tab[i].run = Cardinality({p \in Slots : slot[p].id = i /\ ~slot[p].hung})
      /\ tab[i].st = "closing" => tab[i].run > 0
      /\ (tab[i].st = "live" /\ T > 0) => tab[i].tmr # "nil"
